@@ -451,6 +451,9 @@ package redis
 //@ func parseClusterNodesSlot
 //@   prop C11
 //@   flag bound-alloc check-overflow
+//@   modifies nothing
+//@   loop 0 invariant cap(slots) == 0 || fresh(slots)
+//@   loop 1 invariant (cap(slots) == 0 || fresh(slots)) && 0 <= start && start <= i && i <= end + 1 && end < 16384
 
 //@ func (*FilterChain).Do
 //@   prop C11 C13
